@@ -321,6 +321,8 @@ class Interp:
                 return r
             if op == "+" and isinstance(a, MList) and isinstance(b, MList):
                 return MList(list(a.items) + list(b.items))
+            if op == "*" and isinstance(b, str) and isinstance(a, Num):
+                a, b = b, a            # `n * "ab"` repeats like `"ab" * n` (the OPERANDS were evaluated left to right by the caller)
             if op == "*" and isinstance(a, str) and isinstance(b, Num):
                 if b.v < 0:
                     raise MSFail("conversion", node)
